@@ -237,6 +237,13 @@ func (s *hSim) monitor(q hReq, o hObs) {
 		s.violate("C15", "ill-formed verdict: status and body are inconsistent", map[string]any{"request": q, "response": showResp(o.Resp, nil)})
 	}
 	sid := s.presentedSid(q)
+	// ---- C01 / C02 / C12: session data changes only through the store's write methods
+	for _, b := range s.w.ledger.takeBad() {
+		b["request"] = q
+		for _, prop := range []string{"C02", "C01", "C12", "C11"} {
+			s.violate(prop, "the store returned tokens that no SetTokenResponse ever stored under that session id (session data was modified in place: unvalidated tokens leaked into the session)", b)
+		}
+	}
 	// ---- C01 / C10: the session's own lifetime (absolute and idle timeout of the configured store)
 	if g := s.life[sid]; g != nil && sid != "" && !q.NoHTTP && (c.Abs > 0 || c.Idle > 0) {
 		if !g.dead && ((c.Idle > 0 && o.Now.Sub(g.last) > c.Idle) || (c.Abs > 0 && o.Now.Sub(g.created) > c.Abs)) {
